@@ -30,12 +30,12 @@ Fixpoint iden (s : ist) : list Z :=
   | ISrc _ src => isrc_items src
   | IPeek p => pkden iden p
   | ICompact r first prev p => cden iden r (first, prev, p)
-  | IFilter keep p => filter (pred_eval keep) (iden p)
+  | IFilter keep _ _ p => filter (pred_eval keep) (iden p)
   | IFirst x p => fden iden (x, p)
   | IFlatten rest curr => flden iden (rest, curr)
   | IJoin its => jden iden its
-  | IMap f p => map (fn_eval f) (iden p)
-  | IWhile f done p => wden iden f (done, p)
+  | IMap f _ _ p => map (fn_eval f) (iden p)
+  | IWhile f _ calls done p => wden iden f (calls, done, p)
   | IFlattenSlices b q => fsden ilden (b, q)
   end
 with ilden (q : ilst) : list (list Z) :=
@@ -48,11 +48,11 @@ Fixpoint ifin (s : ist) : Prop :=
   match s with
   | ISrc _ src => isrc_items src = []
   | IPeek p => pkfin ifin p
-  | ICompact _ _ _ p | IFilter _ p | IMap _ p => ifin p
+  | ICompact _ _ _ p | IFilter _ _ _ p | IMap _ _ _ p => ifin p
   | IFirst x p => ffin ifin (x, p)
   | IFlatten rest curr => flfin (rest, curr)
   | IJoin its => jfin its
-  | IWhile _ done p => wfin ifin (done, p)
+  | IWhile _ _ calls done p => wfin ifin (calls, done, p)
   | IFlattenSlices b q => fsfin ilfin (b, q)
   end
 with ilfin (q : ilst) : Prop :=
@@ -65,7 +65,8 @@ Fixpoint iok (s : ist) : Prop :=
   match s with
   | ISrc _ _ => True
   | IPeek p => iok (pk_in p)
-  | ICompact _ _ _ p | IFilter _ p | IFirst _ p | IMap _ p | IWhile _ _ p => iok p
+  | ICompact _ _ _ p | IFirst _ p => iok p
+  | IFilter _ fl _ p | IMap _ fl _ p | IWhile _ fl _ _ p => cb_panics fl = false /\ iok p
   | IFlatten rest curr => all_p iok rest /\ match curr with Some c => iok c | None => True end
   | IJoin its => all_p iok its
   | IFlattenSlices _ q => ilok q
@@ -104,7 +105,8 @@ Proof.
   induction f as [|f [IHz IHl]].
   - split; unfold contract; intros s o s' ev Hok Hc; simpl in Hc; inv_ret Hc; simpl; auto.
   - split; unfold contract; intros s o s' ev Hok Hc.
-    + destruct s as [id src|p|r first prev p|keep p|x p|rest curr|its|g p|g done p|b q];
+    + destruct s as [id src|p|r first prev p|keep fl calls p|x p|rest curr|its|g fl calls p
+                    |g fl calls done p|b q];
         cbn [inext] in Hc.
       * (* source *)
         pose proof (isrc_next_spec src) as Hs.
@@ -119,8 +121,11 @@ Proof.
         inv_ret Hc.
         exact (icompact_ok false _ _ _ _ IHz (S f) r (first, prev, p) _ _ _ Hok E).
       * (* filter *)
-        destruct (ifilter (inext f) (S f) keep p) as [[o1 p1] ev1] eqn:E. inv_ret Hc.
-        exact (ifilter_ok false _ _ _ _ IHz (S f) keep p _ _ _ Hok E).
+        destruct (ifilter (inext f) (S f) keep fl calls p) as [[o1 [c1 p1]] ev1] eqn:E.
+        inv_ret Hc. destruct Hok as [Hfl Hok].
+        destruct (ifilter_ok false _ _ _ _ IHz (S f) keep fl Hfl (calls, p) _ _ _ Hok E)
+          as (Ha & Hp & Hf).
+        split; [split; [exact Hfl|exact Ha]|]. split; [exact Hp|exact Hf].
       * (* first *)
         destruct (ifirst (inext f) x p) as [[o1 [x1 p1]] ev1] eqn:E. inv_ret Hc.
         exact (ifirst_ok false _ _ _ _ IHz eq_refl (x, p) _ _ _ Hok E).
@@ -138,11 +143,16 @@ Proof.
         destruct (ijoin_ok false _ _ _ _ IHz (S f) its _ _ _ Hok E) as (Ha & Hp & Hf).
         split; [apply all_p_Forall; exact Ha|]. split; [exact Hp|exact Hf].
       * (* map *)
-        destruct (imap (inext f) g p) as [[o1 p1] ev1] eqn:E. inv_ret Hc.
-        exact (imap_ok false _ _ _ _ IHz g p _ _ _ Hok E).
+        destruct (imap (inext f) g fl calls p) as [[o1 [c1 p1]] ev1] eqn:E. inv_ret Hc.
+        destruct Hok as [Hfl Hok].
+        destruct (imap_ok false _ _ _ _ IHz g fl Hfl (calls, p) _ _ _ Hok E) as (Ha & Hp & Hf).
+        split; [split; [exact Hfl|exact Ha]|]. split; [exact Hp|exact Hf].
       * (* while *)
-        destruct (iwhile (inext f) g done p) as [[o1 [d1 p1]] ev1] eqn:E. inv_ret Hc.
-        exact (iwhile_ok false _ _ _ _ IHz g (done, p) _ _ _ Hok E).
+        destruct (iwhile (inext f) g fl calls done p) as [[o1 [[c1 d1] p1]] ev1] eqn:E.
+        inv_ret Hc. destruct Hok as [Hfl Hok].
+        destruct (iwhile_ok false _ _ _ _ IHz g fl Hfl (calls, done, p) _ _ _ Hok E)
+          as (Ha & Hp & Hf).
+        split; [split; [exact Hfl|exact Ha]|]. split; [exact Hp|exact Hf].
       * (* flatten slices *)
         destruct (iflatslices (ilnext f) (S f) b q) as [[o1 [b1 q1]] ev1] eqn:E. inv_ret Hc.
         exact (iflatslices_ok false _ _ _ _ IHl (S f) (b, q) _ _ _ Hok E).
@@ -183,7 +193,8 @@ Proof.
     + split; [exact I|]. pose proof (isize_pos s'). lia.
     + split; [exact I|]. pose proof (ilsize_pos s'). lia.
   - split; intros s o s' ev Hc.
-    + destruct s as [id src|p|r first prev p|keep p|x p|rest curr|its|g p|g done p|b q];
+    + destruct s as [id src|p|r first prev p|keep fl calls p|x p|rest curr|its|g fl calls p
+                    |g fl calls done p|b q];
         cbn [inext] in Hc.
       * pose proof (isrc_next_size src) as Hs.
         destruct (isrc_next src) as [[x|] src'] eqn:E; inv_ret Hc; simpl.
@@ -195,8 +206,9 @@ Proof.
       * destruct (icompact (inext f) (S f) r first prev p) as [[o1 [[f1 pr1] p1]] ev1] eqn:E.
         inv_ret Hc. destruct (icompact_sz _ _ _ IHz _ _ _ _ _ _ _ _ _ _ E) as [Hd Hno]. simpl.
         split; [destruct o; lia|]. intros H. apply Hno; lia.
-      * destruct (ifilter (inext f) (S f) keep p) as [[o1 p1] ev1] eqn:E. inv_ret Hc.
-        destruct (ifilter_sz _ _ _ IHz _ _ _ _ _ _ E) as [Hd Hno]. simpl.
+      * destruct (ifilter (inext f) (S f) keep fl calls p) as [[o1 [c1 p1]] ev1] eqn:E.
+        inv_ret Hc.
+        destruct (ifilter_sz _ _ _ IHz _ _ _ _ _ _ _ _ _ E) as [Hd Hno]. simpl.
         split; [destruct o; lia|]. intros H. apply Hno; lia.
       * destruct (ifirst (inext f) x p) as [[o1 [x1 p1]] ev1] eqn:E. inv_ret Hc.
         destruct (ifirst_sz _ _ _ IHz _ _ _ _ _ _ E) as [Hd Hno]. simpl.
@@ -207,11 +219,12 @@ Proof.
       * destruct (ijoin (inext f) (S f) its) as [[o1 its1] ev1] eqn:E. inv_ret Hc.
         destruct (ijoin_sz _ _ _ IHz _ _ _ _ _ E) as [Hd Hno]. unfold jsz in *. simpl.
         split; [destruct o; lia|]. intros H. apply Hno; lia.
-      * destruct (imap (inext f) g p) as [[o1 p1] ev1] eqn:E. inv_ret Hc.
-        destruct (imap_sz _ _ _ IHz _ _ _ _ _ E) as [Hd Hno]. simpl.
+      * destruct (imap (inext f) g fl calls p) as [[o1 [c1 p1]] ev1] eqn:E. inv_ret Hc.
+        destruct (imap_sz _ _ _ IHz _ _ _ _ _ _ _ _ E) as [Hd Hno]. simpl.
         split; [destruct o; lia|]. intros H. apply Hno; lia.
-      * destruct (iwhile (inext f) g done p) as [[o1 [d1 p1]] ev1] eqn:E. inv_ret Hc.
-        destruct (iwhile_sz _ _ _ IHz _ _ _ _ _ _ _ E) as [Hd Hno]. simpl.
+      * destruct (iwhile (inext f) g fl calls done p) as [[o1 [[c1 d1] p1]] ev1] eqn:E.
+        inv_ret Hc.
+        destruct (iwhile_sz _ _ _ IHz _ _ _ _ _ _ _ _ _ _ E) as [Hd Hno]. simpl.
         split; [destruct o; lia|]. intros H. apply Hno; lia.
       * destruct (iflatslices (ilnext f) (S f) b q) as [[o1 [b1 q1]] ev1] eqn:E. inv_ret Hc.
         destruct (iflatslices_sz _ _ _ IHl _ _ _ _ _ _ _ E) as [Hd Hno]. simpl.
@@ -274,14 +287,23 @@ Proof.
   - unfold rden; simpl. unfold pkden; simpl. rewrite H. reflexivity.
 Qed.
 
-Lemma iinit_ok : (forall p, dom_z p -> iok (iinit p)) /\ (forall q, dom_l q -> ilok (ilinit q)).
+(* initial states of panic-free pipelines of the domain are well-formed *)
+Lemma cb_ok_split fl b : negb (cb_panics fl) && b = true -> cb_panics fl = false /\ b = true.
+Proof. intros H. apply andb_true_iff in H. destruct H as [H1 H2]. apply negb_true_iff in H1. auto. Qed.
+
+Lemma iinit_ok :
+  (forall p, dom_z p -> no_panics_z p = true -> iok (iinit p)) /\
+  (forall q, dom_l q -> no_panics_l q = true -> ilok (ilinit q)).
 Proof.
   apply pipe_ind; simpl; intros; auto.
+  - destruct (cb_ok_split _ _ H1); auto.
   - split; [|exact I]. induction H as [|x t Hx Ht IH]; simpl in *; [exact I|].
-    destruct H0 as [H1 H2]. split; auto.
+    destruct H0 as [H2 H3]. apply andb_true_iff in H1. destruct H1 as [H4 H5]. split; auto.
   - induction H as [|x t Hx Ht IH]; simpl in *; [exact I|].
-    destruct H0 as [H1 H2]. split; auto.
-  - destruct H0 as [H1 H2]. split; [lia|auto].
+    destruct H0 as [H2 H3]. apply andb_true_iff in H1. destruct H1 as [H4 H5]. split; auto.
+  - destruct (cb_ok_split _ _ H1); auto.
+  - destruct (cb_ok_split _ _ H1); auto.
+  - destruct H0 as [H2 H3]. split; [lia|auto].
 Qed.
 
 (* ---- runs of k Next calls ---- *)
@@ -330,17 +352,17 @@ Qed.
 (* C07, iterators: k Next calls on any pipeline answer the first k items of its denotation and
    then the end, for ever *)
 Theorem iter_steps_den cfg p lives :
-  iter_supported p = true -> dom p ->
+  iter_supported p = true -> dom p -> no_panics p = true ->
   results (run_iter_cfg cfg p (Steps (map CNext lives))) = expect (den p) (length lives).
 Proof.
-  intros Hs Hd. unfold results, run_iter_cfg.
+  intros Hs Hd Hnp. unfold results, run_iter_cfg.
   destruct (irun_steps (sort_ids (pipe_ids p)) (irun_init p) [] (map CNext lives))
     as [steps log] eqn:E. simpl.
   destruct p as [p|q]; simpl in *.
   - pose proof (irun_steps_z (sort_ids (pz_ids p)) lives (iinit p) []
-                  (proj1 iinit_ok p Hd)) as H.
+                  (proj1 iinit_ok p Hd Hnp)) as H.
     rewrite E in H. simpl in H. rewrite H. rewrite (proj1 iinit_den p Hs). reflexivity.
   - pose proof (irun_steps_l (sort_ids (pl_ids q)) lives (ilinit q) []
-                  (proj2 iinit_ok q Hd)) as H.
+                  (proj2 iinit_ok q Hd Hnp)) as H.
     rewrite E in H. simpl in H. rewrite H. rewrite (proj2 iinit_den q Hs). reflexivity.
 Qed.
